@@ -246,10 +246,10 @@ def bnode(c):
 class SymInt(object):
     """python int as IR node.  unsigned (lo >= 0): value == node, width == bit_length(hi);
     signed (lo < 0): two's complement at node width."""
-    __slots__ = ('n', 'lo', 'hi')
+    __slots__ = ('n', 'lo', 'hi', 'lin')
 
-    def __init__(self, n, lo, hi):
-        self.n, self.lo, self.hi = n, lo, hi
+    def __init__(self, n, lo, hi, lin=None):
+        self.n, self.lo, self.hi, self.lin = n, lo, hi, lin
 
     @property
     def w(self):
@@ -275,6 +275,8 @@ class SymInt(object):
 
     @staticmethod
     def mk(n, lo, hi):
+        """normalise.  Node widths are *structural* (only syntactic leading zeros are stripped); the interval never
+        slices a node, so two computations of one value with different interval precision still give one node."""
         if ir.isc(n):
             v = n.a
             if lo < 0 and v >> (n.w - 1):
@@ -283,22 +285,22 @@ class SymInt(object):
         if lo == hi:
             return lo
         if lo >= 0:
-            k = _bl(hi)
-            if k < n.w:
-                n = ir.slc(n, 0, k)
-            elif k > n.w:
-                n = ir.zext(n, k)
-            if ir.isc(n):
-                return n.a
+            if n.k == 'cat':
+                top = n.a[-1]
+                if top[0] == 'c' and top[1].bit_length() < top[2]:
+                    # leading zeros of the top constant segment are not part of the value's structure
+                    n = ir.slc(n, 0, n.w - top[2] + top[1].bit_length())
+                    if ir.isc(n):
+                        return n.a
+            hi = min(hi, (1 << n.w) - 1)
+            if lo > hi:
+                lo = hi
+            if lo == hi:
+                return lo
             return SymInt(n, lo, hi)
         k = _sbits(lo, hi)
-        if k < n.w:
-            n = ir.slc(n, 0, k)
-        elif k > n.w:
+        if k > n.w:
             n = ir.sext(n, k)
-        if ir.isc(n):
-            v = n.a
-            return v - (1 << n.w) if v >> (n.w - 1) else v
         return SymInt(n, lo, hi)
 
     @staticmethod
@@ -403,6 +405,7 @@ class _Const(SymInt):
         self.v = v
         self.lo = self.hi = v
         self.n = None
+        self.lin = None
 
     @property
     def w(self):
@@ -423,16 +426,63 @@ def _isc(x):
     return isinstance(x, _Const)
 
 
+def _lin_of(x):
+    "exact linear form {atom node id: integer coefficient}, constant  (atoms are unsigned nodes)"
+    if _isc(x):
+        return ({}, x.v)
+    if x.lin is not None:
+        return x.lin
+    if not x.signed:
+        return ({x.n.id: 1}, 0)
+    return None
+
+
+def _from_lin(terms, c0, lo, hi):
+    terms = dict((i, c) for i, c in terms.items() if c)
+    if not terms:
+        return c0
+    if len(terms) == 1 and c0 == 0:
+        (i, c), = terms.items()
+        if c == 1:
+            a = ir.node(i)
+            return SymInt.mk(a, max(lo, 0), min(hi, (1 << a.w) - 1))
+    # width from the linear form alone (structural), never from interval precision
+    slo = shi = c0
+    for i, c in terms.items():
+        m = (1 << ir.node(i).w) - 1
+        if c > 0: shi += c * m
+        else: slo += c * m
+    lo, hi = max(lo, slo), min(hi, shi)
+    W = _bl(shi) if slo >= 0 else _sbits(slo, shi)
+    items = []
+    for i, c in terms.items():
+        a = ir.node(i)
+        items.append((ir.zext(a, W), c))
+    r = SymInt.mk(ir.add(W, items, c0), lo, hi)
+    if isinstance(r, SymInt) and r.lin is None:
+        r.lin = (terms, c0)
+    return r
+
+
+def _lin_comb(a, b, kb):
+    la, lb = _lin_of(a), _lin_of(b)
+    if la is None or lb is None:
+        return None
+    t = dict(la[0])
+    for i, c in lb[0].items():
+        t[i] = t.get(i, 0) + kb * c
+    return t, la[1] + kb * lb[1]
+
+
 def _add(a, b):
     if _isc(a) and _isc(b):
         return a.v + b.v
     if _isc(b) and b.v == 0: return a
     if _isc(a) and a.v == 0: return b
     lo, hi = a.lo + b.lo, a.hi + b.hi
-    if a.lo >= 0 and b.lo >= 0:
-        W = _bl(hi)
-        W = max(W, a.w, b.w)
-        return SymInt.mk(ir.add(W, [(a.ext(W), 1), (b.ext(W), 1)]), lo, hi)
+    lc = _lin_comb(a, b, 1)
+    if lc is not None:
+        return _from_lin(lc[0], lc[1], lo, hi)
     W = max(a.sw(), b.sw(), _sbits(lo, hi))
     return SymInt.mk(ir.add(W, [(a.ext(W), 1), (b.ext(W), 1)]), lo, hi)
 
@@ -442,6 +492,9 @@ def _sub(a, b):
         return a.v - b.v
     if _isc(b) and b.v == 0: return a
     lo, hi = a.lo - b.hi, a.hi - b.lo
+    lc = _lin_comb(a, b, -1)
+    if lc is not None:
+        return _from_lin(lc[0], lc[1], lo, hi)
     W = max(a.sw(), b.sw(), _sbits(lo, hi))
     return SymInt.mk(ir.add(W, [(a.ext(W), 1), (b.ext(W), -1)]), lo, hi)
 
@@ -458,6 +511,9 @@ def _mul(a, b):
         lo, hi = min(c), max(c)
         if b.v > 0 and b.v & (b.v - 1) == 0 and a.lo >= 0:
             return _shl(a, _Const(b.v.bit_length() - 1))
+        la = _lin_of(a)
+        if la is not None:
+            return _from_lin(dict((i, c * b.v) for i, c in la[0].items()), la[1] * b.v, lo, hi)
         W = max(a.sw(), _sbits(lo, hi))
         return SymInt.mk(ir.add(W, [(a.ext(W), b.v)]), lo, hi)
     c = [a.lo * b.lo, a.lo * b.hi, a.hi * b.lo, a.hi * b.hi]
@@ -476,13 +532,14 @@ def _bw(kind, a, b):
             return 0 if kind == 'and' else a
         if b.v == -1 and kind == 'and':
             return a
+        if kind == 'and' and b.v > 0 and (b.v & (b.v + 1)) == 0 and a.lo >= 0 and a.w <= _bl(b.v):
+            return a          # the mask keeps every bit: no new node (keeps exact linear forms alive)
     if a.lo >= 0 and b.lo >= 0:
+        W = max(a.w, b.w)
         if kind == 'and':
-            W = max(a.w, b.w)
             hi = min(a.hi, b.hi)
         else:
-            W = max(_bl(a.hi), _bl(b.hi))
-            hi = (1 << W) - 1
+            hi = (1 << max(_bl(a.hi), _bl(b.hi))) - 1
         return SymInt.mk(ir.bitop(kind, a.ext(W), b.ext(W)), 0, hi)
     if kind == 'and' and (a.lo >= 0 or b.lo >= 0):
         # non-negative & anything is non-negative and bounded by the non-negative operand
